@@ -44,15 +44,15 @@ MIN_EVENTS = {
     'quick': {'connections_checked': 1500, 'payloads_checked': 8000, 'disconnections_checked': 1000,
               'adv_events_checked': 2000, 'steal_cases': 120, 'churn_cases': 200, 'fragadv_cases': 60, 'ghost_cases': 30,
               'advset_phases_verified': 300, 'last_words_checked': 150, 'advset_handle_reused_after_remove': 40,
-              'dual_cases': 150, 'dual_connections_checked': 400, 'dual_observations': 1000,
-              'dual_is_advertising_checked': 800, 'dual_outgoing_while_advertising': 100,
-              'dual_incoming_after_outgoing': 120, 'dual_stop_start_steps': 80},
+              'dual_cases': 300, 'dual_connections_checked': 800, 'dual_observations': 2000,
+              'dual_is_advertising_checked': 1600, 'dual_outgoing_while_advertising': 200,
+              'dual_incoming_after_outgoing': 250, 'dual_stop_start_steps': 160},
     'thorough': {'connections_checked': 10000, 'payloads_checked': 60000, 'disconnections_checked': 7000,
                  'adv_events_checked': 6000, 'steal_cases': 1000, 'churn_cases': 1000, 'fragadv_cases': 400, 'ghost_cases': 200,
                  'advset_phases_verified': 2400, 'last_words_checked': 1200, 'advset_handle_reused_after_remove': 300,
-                 'dual_cases': 1200, 'dual_connections_checked': 3200, 'dual_observations': 8000,
-                 'dual_is_advertising_checked': 6400, 'dual_outgoing_while_advertising': 800,
-                 'dual_incoming_after_outgoing': 1000, 'dual_stop_start_steps': 640},
+                 'dual_cases': 2400, 'dual_connections_checked': 6400, 'dual_observations': 16000,
+                 'dual_is_advertising_checked': 12800, 'dual_outgoing_while_advertising': 1600,
+                 'dual_incoming_after_outgoing': 2000, 'dual_stop_start_steps': 1300},
 }
 CASE_TIMEOUT = 300
 CID = 0x0074
@@ -76,7 +76,7 @@ def plan(tier, seed):
         cases.append({'kind': 'fragadv', 'seed': seed * 1000003 + i})
     for i in range(150 if tier == 'quick' else 1200):
         cases.append({'kind': 'advsets', 'seed': seed * 1000003 + i})
-    for i in range(200 if tier == 'quick' else 1600):
+    for i in range(400 if tier == 'quick' else 3000):
         cases.append({'kind': 'dual', 'seed': seed * 1000003 + i})
     return cases
 
